@@ -272,6 +272,7 @@ def bucket(x):
 
 class C10(Family):
     prop = "C10"
+    extra_modules = ["CtrlVerif.Props.C10Stable"]    # stability half (Lyapunov argument over C)
     externals = ["scipy.linalg.solve_continuous_lyapunov / solve_discrete_lyapunov / solve_sylvester / "
                  "solve_continuous_are / solve_discrete_are (contract structures of Props/C10.lean: the "
                  "returned matrix satisfies SciPy's documented equation, for the Riccati solvers it is "
